@@ -249,6 +249,10 @@ func probeSource(t []string) (src string, gas int64, ok bool) {
 	case "prog", "kf":
 		toks := t
 		if t[0] == "kf" {
+			// pinned known-finding witness: `kf <key> prog …` or `kf <key> src …`
+			if len(t) >= 4 && t[2] == "src" {
+				return probeSource(t[2:])
+			}
 			if len(t) < 4 || t[2] != "prog" {
 				return "", 0, false
 			}
@@ -353,7 +357,8 @@ func runProbes(lines []string) []probeOut {
 			next++
 		}
 		werr := cmd.Wait()
-		if next < len(lines) && (next == start || res[next-1].class != "crash:hang") {
+		selfExit := next > start && (res[next-1].class == "crash:hang" || res[next-1].class == "crash:mem-growth")
+		if next < len(lines) && !selfExit {
 			// the child died while handling line `next`
 			detail := "child exited"
 			if werr != nil {
@@ -596,6 +601,10 @@ func gen(w *kit.Out, r *kit.Rand, tier string) {
 				if n > 5000 {
 					n = 5000
 				}
+			case "recursion-defer":
+				// known finding defer-panic-recursion-memory: time and untracked memory grow
+				// quadratically with the gas; the pinned witness is in the corpus
+				gas = min(gas, 3_000_000)
 			}
 			w.Case(fmt.Sprintf("src-%s-%d", kind, n))
 			w.Op("src %s %d %d", kind, n, gas)
